@@ -234,6 +234,8 @@ package client
 //@ func (*UDPConn).bind
 //@   requires c != nil && c.log != nil && c.client != nil && bound != nil
 //@   ensures [C13:confirmed-by-success-response] confirmed[bound] == (old(confirmed[bound]) || res == nil)
+//@   ensures [C13:confirmed-by-success-response] res == nil ==> lastResponse != nil && lastResponse.Type.Class != stun.ClassErrorResponse
+//@   ensures [C14:stale-nonce-means-retry] errIs(res, errTryAgain) ==> lastResponse != nil && lastResponse.Type.Class == stun.ClassErrorResponse && errCode(lastResponse) == 438
 //@   ensures forall b :: b != bound ==> confirmed[b] == old(confirmed[b])
 //@   ensures bound.st == old(bound.st)
 //@   ghost-set confirmed[bound] = true when res == nil
@@ -260,6 +262,7 @@ package client
 //@   requires c != nil && c.log != nil && res != nil && !held(c.mutex) && !rheld(c.mutex)
 //@   ensures res != nil
 //@   at-call (*allocation).setNonceFromMsg assert [C14:stale-nonce-adopts-server-nonce] arg0 == res
+//@   ensures [C14:stale-nonce-means-retry] errIs(res0, errTryAgain) ==> errCode(arg0) == 438
 //@   assigns c._nonce
 
 //@ func (*allocation).lifetime
@@ -279,6 +282,7 @@ package client
 //@   requires a != nil && a.log != nil && a.client != nil && !held(a.mutex) && !rheld(a.mutex)
 //@   at-call invoke github.com/pion/turn/v5/internal/client.Client.PerformTransaction assert [C14:refresh-to-server] arg1 == a.serverAddr && arg2 == dontWait
 //@   ensures [C14:stale-nonce-adopts-server-nonce] res == errTryAgain ==> !dontWait && (hasAttr(lastResponse, stun.AttrNonce) ==> strOf(a._nonce) == attrText(lastResponse, stun.AttrNonce))
+//@   ensures [C14:stale-nonce-means-retry] res == errTryAgain ==> lastResponse != nil && lastResponse.Type.Class == stun.ClassErrorResponse && errCode(lastResponse) == 438
 //@   ensures [C14:lifetime-from-response] res == nil && !dontWait && lastResponse.Type.Class != stun.ClassErrorResponse ==> present(lastResponse, stun.AttrLifetime, 4) && int(a._lifetime) == be32(attr(lastResponse, stun.AttrLifetime), 0) * 1000000000
 //@   ensures [C14:no-wait-no-change] dontWait ==> sameSlice(a._nonce, old(a._nonce)) && a._lifetime == old(a._lifetime)
 //@   assigns a._nonce, a._lifetime, lastResponse
@@ -333,6 +337,7 @@ package client
 //@   ensures errIs(res, errTryAgain) ==> res == errTryAgain
 //@   ensures [C13:nil-means-success-response] res == nil ==> lastResponse != nil && lastResponse.Type.Class != stun.ClassErrorResponse
 //@   ensures [C14:stale-nonce-adopts-server-nonce] res == errTryAgain ==> (hasAttr(lastResponse, stun.AttrNonce) ==> strOf(a._nonce) == attrText(lastResponse, stun.AttrNonce))
+//@   ensures [C14:stale-nonce-means-retry] res == errTryAgain ==> lastResponse != nil && lastResponse.Type.Class == stun.ClassErrorResponse && errCode(lastResponse) == 438
 //@   loop 0 invariant fresh(base(setters)) && len(setters) >= 2 && -1 <= rangeindex && rangeindex < len(addrs)
 //@   ghost-set cpOK = true when res == nil
 //@   ghost-set cpOK = false when res != nil
